@@ -15,6 +15,8 @@ RULE = ('Hypothesis-generated frame values of each of the 14 types (stream ids 0
         'plus 4 KiB/64 KiB/70 KiB blobs). Oracle: differential against an independent reference codec written from the '
         'RSocket 1.0 frame layouts (serialize == reference bytes), round trip (parse_or_ignore(reference bytes) has the '
         'same fields), canonical (serialize(parse(b)) == b), partial write through the real TransportTCP.send_frame '
+        '(one frame into a copying writer, and sequences of 2-6 frames into a writer that keeps the objects it was '
+        'handed, as asyncio does when the socket is not writable, read back after the last frame) '
         'against a recording writer (concatenated writes == 3-byte length + bytes), serialize_with_frame_size_header, '
         'all on both codec backends (cbitstruct and native struct, the second imported with cbitstruct masked) with '
         'identical results; plus exhaustive comparison of the two header parsers over 64 type codes x 1024 flag '
@@ -124,7 +126,53 @@ def check_value(v, vs_list=None):
 info = {}
 
 
+class HoldWriter:
+    """A writer that keeps what it was given instead of copying it - what asyncio's socket transport does with data it
+    cannot send at once (the caller must not touch the object afterwards). Read back after all frames were written."""
+
+    def __init__(self):
+        self.held = []
+
+    def write(self, data):
+        self.held.append(data)
+
+    async def drain(self):
+        return
+
+
+def seq_prop(case):
+    """Several frames through one TransportTCP: the byte stream is the concatenation of the one-shot encodings."""
+    out = []
+    vals = case['seq']
+    want = b''.join(refcodec.frame_with_length(refcodec.encode(frames.normalise(v))) for v in vals)
+    for var in variants.all_variants():
+        T = var.mod('rsocket.transports.tcp')
+        w = HoldWriter()
+        tr = T.TransportTCP(None, w)
+        try:
+            for v in vals:
+                common.drive(tr.send_frame(frames.to_repo(var, v)))
+        except Exception as e:
+            is_repo, sig = common.repo_exception_sig(e)
+            if not is_repo:
+                raise
+            out.append(viol('partial_write_raised', 'C02:partial_write_raised:sequence', backend=var.name, exc=repr(e)))
+            continue
+        got = b''.join(bytes(x) for x in w.held)
+        if got != want:
+            at = next((i for i, (a, b) in enumerate(zip(got, want)) if a != b), min(len(got), len(want)))
+            out.append(viol('partial_write_differs', 'C02:partial_write:sequence', backend=var.name, first_difference_at=at,
+                            got=got[max(0, at - 4):at + 12].hex(), want=want[max(0, at - 4):at + 12].hex(),
+                            types=[v['type'] for v in vals]))
+    info['nt'] = len(set(len(refcodec.encode(frames.normalise(v))) for v in vals)) >= 2
+    info['key'] = common.case_hash(want)
+    info['classes'] = ['sequence_of=%d' % len(vals)]
+    return out
+
+
 def prop(v):
+    if 'seq' in v:
+        return seq_prop(v)
     out, ref, nv = check_value(v)
     nt = bool(nv.get('data')) or bool(nv.get('metadata')) or any(
         nv.get(k) for k in ('ignore', 'follows', 'complete', 'next', 'respond', 'lease', 'resume', 'n', 'position',
@@ -237,6 +285,10 @@ def shard(tier, seed, n, types=None, tables=False):
         header_table(stats, known)
         helper_tables(stats, known, seed)
         return stats
+    if types == ['sequence']:
+        strat = st.lists(frames.any_frame_value(), min_size=2, max_size=6).map(lambda l: {'seq': l})
+        common.hyp_search(stats, known, strat, prop, n, seed, classify=classify, shrink=True)
+        return stats
     for t in types:
         common.hyp_search(stats, known, frames.frame_value(t), prop, n, seed, classify=classify, shrink=True)
     return stats
@@ -257,6 +309,7 @@ def run(tier, seed):
         for i, t in enumerate(types):
             for j in range(parts):
                 jobs.append(dict(tier=tier, seed=seeds[(i * parts + j) % nsh] + j, n=per_type // parts, types=[t]))
+    jobs.append(dict(tier=tier, seed=seeds[0] + 99, n=600 if tier == 'quick' else 20000, types=['sequence']))
     stats = common.run_shards(__name__, 'shard', jobs)
     if tier == 'thorough':
         from harness import fuzz
